@@ -747,6 +747,40 @@ def round14_entries():
     return out
 
 
+def round15_entries():
+    """closing the misses of seed round 15"""
+    out = []
+    # fast-math flags on a call whose result is an ARRAY of floating-point values or vectors (LLVM 14 accepts them nested to any depth)
+    for ty in ("[2 x float]", "[3 x <2 x double>]", "[2 x [2 x half]]", "{ float, float }"):
+        if ty.startswith("{"):
+            continue          # (a struct result takes no fast-math flags in LLVM 14)
+        for fl in ("fast", "nnan ninf", "reassoc nnan ninf nsz arcp contract afn"):
+            out.append(("fmf-array-call.%s.%s" % (ty.replace(" ", ""), fl.replace(" ", "-")), "declare %s @a()\n\ndefine void @f() {\n\t%%r = call %s %s @a()\n\tret void\n}\n" % (ty, fl, ty),
+                        ["%%r = call %s %s @a()" % (fl, ty)]))
+    # decimal literals BEYOND the range of their kind (LLVM rejects them; the parser accepts them and prints the bits of the double): what is printed must be read
+    # as the very same value again
+    for lit in ("1.0e39", "3.5e38", "-4.0e38", "1.0e300"):
+        out.append(("float-beyond-range." + lit, "@a = global float %s\n" % lit, ["@a = global float "]))
+    for lit in ("70000.0", "1.0e10", "-65520.0"):
+        out.append(("half-beyond-range." + lit, "@a = global half %s\n" % lit, ["@a = global half "]))
+    # the `inrange` marker of an index of a getelementptr EXPRESSION (every position; with and without inbounds)
+    vt = "@vt = global { [4 x i8*], [2 x i8*] } zeroinitializer\n"
+    for ib in ("", "inbounds "):
+        for pos in (0, 1, 2):
+            idx = ["i32 0", "i32 1", "i32 2"]
+            idx[pos] = "inrange " + idx[pos]
+            e = "getelementptr %s({ [4 x i8*], [2 x i8*] }, { [4 x i8*], [2 x i8*] }* @vt, %s)" % (ib, ", ".join(idx))
+            out.append(("gepexpr-inrange.%s%d" % (ib.strip() or "plain", pos), vt + "@p = global i8** %s\n" % e, ["@p = global i8** " + e]))
+    # a call / invoke / callbr whose written type is a NAMED type standing for a function type (`%sig = type void (i32)`): a void call takes no number, the
+    # unnamed values after it keep theirs
+    for site, tail in (("call %sig @sink(i32 %x)", ""), ("invoke %sig @sink(i32 %x)\n\t\tto label %n unwind label %n", "n:\n"), ("callbr %sig asm \"\", \"r\"(i32 %x)\n\t\tto label %n []", "n:\n")):
+        body = ("%%sig = type void (i32)\n%%rsig = type i32 (i32)\n\ndeclare void @sink(i32 %%0)\n\ndeclare i32 @src(i32 %%0)\n\ndefine i32 @f(i32 %%x) personality i8* null {\n\t%%1 = add i32 %%x, 1\n\t%s\n\n%s"
+                "\t%%%d = mul i32 %%1, %%1\n\t%%%d = call %%rsig @src(i32 %%%d)\n\tret i32 %%%d\n}\n") % ((site, tail) + (2, 3, 2, 3))
+        # (printed with the return type the named type stands for)
+        out.append(("aliased-signature." + site.split()[0], body, ["\t" + site.split("\n")[0].replace("%sig", "void") + "\n", "\t%2 = mul i32 %1, %1\n", "\t%3 = call i32 @src(i32 %2)\n"]))
+    return out
+
+
 def layout_entries():
     """a value USED in a block that is written BEFORE the block that defines it (legal: the definition dominates through the CFG): the parser types forward
     references from the scaffold it builds in a first pass, so a constant next to such an operand is built at the scaffold's type"""
@@ -854,4 +888,4 @@ def layout_entries():
 
 
 def all_entries(rows):
-    return kw_entries(rows) + STRUCTURED + NAMED_NONSTRUCT + inst_entries() + DI + MISC + comdat_entries() + flag_cross_entries() + addrspace_cross_entries() + written_type_entries() + REPEATS + UINT_LITS + order_entries() + DI_REFS + clausegen.all_entries() + layout_entries() + round13_entries() + round14_entries()
+    return kw_entries(rows) + STRUCTURED + NAMED_NONSTRUCT + inst_entries() + DI + MISC + comdat_entries() + flag_cross_entries() + addrspace_cross_entries() + written_type_entries() + REPEATS + UINT_LITS + order_entries() + DI_REFS + clausegen.all_entries() + layout_entries() + round13_entries() + round14_entries() + round15_entries()
